@@ -37,6 +37,18 @@ func genC13(t *rapid.T) CaseC13 {
 		d = make([]byte, n)
 		d[rapid.IntRange(0, n-1).Draw(t, "pos")] = 1 << uint(rapid.IntRange(0, 7).Draw(t, "bit"))
 	}
+	if rapid.IntRange(0, 7).Draw(t, "zero-prefix") == 0 {
+		// a string that begins with one or two complete CRC-valid blocks (running checksum 0 at the block end),
+		// e.g. a maximum-size section followed by more bytes: the checksum of the whole string is still defined
+		var s []byte
+		for k := rapid.IntRange(1, 2).Draw(t, "zp-blocks"); k > 0; k-- {
+			l := rapid.SampledFrom([]int{4, 8, 188, 1024, 4096, 4096, 8192}).Draw(t, "zp-len")
+			blk := genBytes(t, l-4, l-4, "zp-block")
+			crc := ref.CRC32MPEG2(blk)
+			s = append(append(s, blk...), byte(crc>>24), byte(crc>>16), byte(crc>>8), byte(crc))
+		}
+		d = append(s, genBytes(t, 0, 300, "zp-tail")...)
+	}
 	return CaseC13{Data: d}
 }
 
@@ -84,7 +96,7 @@ func checkC13(c CaseC13, x *hx.Ctx) *hx.Failure {
 var propC13 = hx.Register(hx.Prop[CaseC13]{ID: "C13", Gen: genC13, Check: checkC13})
 
 func c13Rule() {
-	hx.Rec("C13").SetRule("cases: byte strings with length from {0..64} u {3,4,5,8,16,183,184,188,1021,1024} u uniform 0..4096, contents random / all-zero / all-0xFF / a single set bit. Oracle: ComputeCRC(s) equals the big-endian CRC-32/MPEG-2 of s computed by an independent reference (table-driven, cross-checked against a bit-by-bit transcription of the definition and the catalogue check value 0x0376E6E7), and ComputeCRC(s++ComputeCRC(s)) is zero. Enumerated: all strings of length 0, 1, 2; all single-bit strings of length 1..L (quick L=96 plus 64 longer lengths up to 1024, thorough L=1024). Emitted sections: encoded splice_info_sections (both construction paths, setter histories, alignment stuffing 0..7) and filtered PMTs (one input in three carries a stale CRC_32 of its own) must have residue 0 under the reference CRC. Non-trivial: length >= 1; distinct by content.",
+	hx.Rec("C13").SetRule("cases: byte strings with length from {0..64} u {3,4,5,8,16,183,184,188,1021,1024} u uniform 0..4096, contents random / all-zero / all-0xFF / a single set bit; one case in eight begins with one or two complete CRC-valid blocks of 4..8192 bytes (running checksum zero at the block end) followed by 0..300 more bytes. Oracle: ComputeCRC(s) equals the big-endian CRC-32/MPEG-2 of s computed by an independent reference (table-driven, cross-checked against a bit-by-bit transcription of the definition and the catalogue check value 0x0376E6E7), and ComputeCRC(s++ComputeCRC(s)) is zero. Enumerated: all strings of length 0, 1, 2; all single-bit strings of length 1..L (quick L=96 plus 64 longer lengths up to 1024, thorough L=1024). Emitted sections: encoded splice_info_sections (both construction paths, setter histories, alignment stuffing 0..7) and filtered PMTs (one input in three carries a stale CRC_32 of its own) must have residue 0 under the reference CRC. Non-trivial: length >= 1; distinct by content.",
 		"emitted sections are generated with the C09 (API-built / decoded + setter history + alignment stuffing) and C14 (filtered multi-packet PMT) generators; their residue is checked with the reference CRC")
 }
 
